@@ -74,6 +74,8 @@ def run(ctx):
             ctx.stat('list_failing_query')
         if c['A']:
             ctx.nontriv(('list', c['q'], json.dumps(c['A'])))
+    # list sources with list-valued / None cells handed to the CSV writers of both ports (the writers normalise in place)
+    importlib.import_module('props.c06n').run(ctx, THEOREM)
     oc = other_cases(ctx, 60 if ctx.tier == 'quick' else 1500)
     # model side for sqlite: the statements the model sends
     sq = [c for c in oc if c['mode'] == 'sqlite']
@@ -120,6 +122,8 @@ def run(ctx):
 
 
 def replay(ctx, case):
+    if case.get('part') == 'csvwriter_sources':
+        return importlib.import_module('props.c06n').replay(ctx, case, THEOREM)
     if case.get('impl') == 'js':
         return importlib.import_module('props.c19').replay(ctx, case)
     g = lib.run_impl_py('c06', [case], shards=1, extra_env={'VERIF_SCRATCH': lib.BUILD})[0]
